@@ -2570,3 +2570,48 @@ def const_table_uses(tu, fname):
         out.append({"table": base["referencedDecl"].get("name"), "extent": int(m.group(1)), "node": n,
                     "index_text": norm_c(tu.text_of(idx)), "bound": upper(idx)})
     return out
+
+
+def fptr_tables(tu):
+    """file-scope arrays initialised with functions of this translation unit:
+    `T NAME[..] = { &f, g, [3] = &h, ... };` -> {NAME: {index: function name}} (from the source text; cfacts keeps
+    only function definitions)"""
+    toks = c_tokens(tu.text)
+    out = {}
+    i = 0
+    while i + 4 < len(toks):
+        if toks[i][0] == "id" and toks[i + 1][1] == "[":
+            j = _match(toks, i + 1, "[", "]")
+            if j + 2 < len(toks) and toks[j + 1][1] == "=" and toks[j + 2][1] == "{":
+                e = _match(toks, j + 2, "{", "}")
+                body = toks[j + 3: e]
+                entries, cur, depth = [], [], 0
+                for t in body:
+                    if t[1] in "([{":
+                        depth += 1
+                    elif t[1] in ")]}":
+                        depth -= 1
+                    if t[1] == "," and depth == 0:
+                        entries.append(cur)
+                        cur = []
+                    else:
+                        cur.append(t[1])
+                if cur:
+                    entries.append(cur)
+                table, k, ok = {}, 0, bool(entries)
+                for ent in entries:
+                    if len(ent) >= 4 and ent[0] == "[" and ent[2] == "]" and ent[3] == "=" and re.fullmatch(r"\d+", ent[1]):
+                        k = int(ent[1])
+                        ent = ent[4:]
+                    ent = [x for x in ent if x != "&"]
+                    if len(ent) == 1 and ent[0] in tu.funcs:
+                        table[k] = ent[0]
+                        k += 1
+                    else:
+                        ok = False
+                        break
+                if ok and table:
+                    out[toks[i][1]] = table
+                i = e
+        i += 1
+    return out
